@@ -55,13 +55,15 @@ enum OpKind : uint8_t
     // macro operation of the "wide" runs: emplace_back until the vector is full (or the payload budget is used up), the
     // span lengths cycling through 0..cmax starting at `phase`
     O_FILL,  // fill(t,phase)
+    // emplace_back whose arguments alias the vector itself: the fields of element i (references and spans into the block)
+    O_EBS,  // ebs(t,i)
     O_KINDS
 };
 
 inline const char* const OP_NAMES[O_KINDS] = {"new", "def",  "eb",   "pb",   "er",   "err", "cl",  "rs",  "cc",  "ca",   "mc",   "ma",
                                               "sw",  "des",  "tcpy", "tcpa", "tswp", "tcmp", "rar", "rsw", "rot", "rev",  "swr",  "wp",
-                                              "xr",  "xcc",  "xmc",  "xca",  "xma",  "xsw", "xar", "rax", "xmut", "vmut", "xdes", "fail", "fill"};
-inline const int OP_ARITY[O_KINDS] = {6, 1, 4, 1, 2, 3, 1, 4, 2, 2, 2, 2, 2, 1, 1, 2, 2, 1, 4, 4, 4, 3, 4, 3, 5, 3, 3, 2, 2, 2, 4, 4, 1, 2, 1, 1, 2};
+                                              "xr",  "xcc",  "xmc",  "xca",  "xma",  "xsw", "xar", "rax", "xmut", "vmut", "xdes", "fail", "fill", "ebs"};
+inline const int OP_ARITY[O_KINDS] = {6, 1, 4, 1, 2, 3, 1, 4, 2, 2, 2, 2, 2, 1, 1, 2, 2, 1, 4, 4, 4, 3, 4, 3, 5, 3, 3, 2, 2, 2, 4, 4, 1, 2, 1, 1, 2, 2};
 
 struct Op
 {
